@@ -613,36 +613,42 @@ impl ZiPatch {
                                     // reverse reading crc32
                                     file.seek(SeekFrom::Current(-4))?;
 
-                                    // file_size is untrusted: grow with the data actually read
-                                    let mut data: Vec<u8> = Vec::new();
-
-                                    while data.len() < fop.file_size as usize {
-                                        data.append(
-                                            &mut read_data_block_patch(&mut file)
-                                                .ok_or(PatchError::ParseError)?,
-                                        );
-                                    }
-
-                                    // re-apply crc32
-                                    file.seek(SeekFrom::Current(4))?;
-
-                                    // now apply the file!
+                                    // open the target first and write every block as soon as it
+                                    // is read: file_size and the block sizes are untrusted, so the
+                                    // whole file is never held in memory (one block at a time)
                                     let new_file = OpenOptions::new()
                                         .write(true)
                                         .create(true)
                                         .truncate(false)
                                         .open(&file_path);
 
-                                    if let Ok(mut file) = new_file {
-                                        if fop.offset == 0 {
-                                            file.set_len(0)?;
-                                        }
+                                    let mut new_file = match new_file {
+                                        Ok(mut new_file) => {
+                                            if fop.offset == 0 {
+                                                new_file.set_len(0)?;
+                                            }
 
-                                        file.seek(SeekFrom::Start(fop.offset))?;
-                                        file.write_all(&data)?;
-                                    } else {
-                                        warn!("{file_path} does not exist, skipping.");
+                                            new_file.seek(SeekFrom::Start(fop.offset))?;
+                                            Some(new_file)
+                                        }
+                                        Err(_) => {
+                                            warn!("{file_path} does not exist, skipping.");
+                                            None
+                                        }
+                                    };
+
+                                    let mut remaining = fop.file_size;
+                                    while remaining > 0 {
+                                        let block = read_data_block_patch(&mut file)
+                                            .ok_or(PatchError::ParseError)?;
+                                        if let Some(new_file) = new_file.as_mut() {
+                                            new_file.write_all(&block)?;
+                                        }
+                                        remaining = remaining.saturating_sub(block.len() as u64);
                                     }
+
+                                    // re-apply crc32
+                                    file.seek(SeekFrom::Current(4))?;
                                 }
                                 SqpkFileOperation::DeleteFile => {
                                     if fs::remove_file(file_path.as_str()).is_err() {
